@@ -318,9 +318,22 @@ def prop_history(r):
         except Exception as e:
             raise Violation(f"pass:phs-encode-raises:{type(e).__name__}", dict(error=repr(e)[:300]))
         pes = [o for o in pmod.ops if isinstance(o, phs.PEOp)]
-        if len(pes) != 1 or not pes[0].is_structurally_equivalent(abstract):
-            raise Violation("pass:phs-encode-builds-another-pe",
-                            dict(by_pass=[_pe_text(p) for p in pes], step_by_step=_pe_text(abstract)))
+        if len(pes) != 1:
+            raise Violation("pass:phs-encode-builds-no-single-pe", dict(by_pass=[_pe_text(p) for p in pes], step_by_step=_pe_text(abstract)))
+        if not pes[0].is_structurally_equivalent(abstract):
+            # another merge order / structure is fine as long as every kernel decodes against it and computes its function
+            for m in range(steps_done):
+                cand = _encode(generics[m], f"kernel {m} (candidate)")
+                try:
+                    values = list(decode_abstract_graph(pes[0], cand))
+                    got = I.eval_pe(pes[0], data, values)
+                except Exception as e:
+                    raise Violation(f"pass:pe-built-by-pass:decode-or-eval-fails:{type(e).__name__}",
+                                    dict(kernel=m, error=repr(e)[:300], by_pass=_pe_text(pes[0]), step_by_step=_pe_text(abstract)))
+                evals += 1
+                if len(got) != 1 or not I.same(got[0], refs[m]):
+                    raise Violation("pass:pe-built-by-pass:function-differs",
+                                    dict(kernel=m, values=values, by_pass=_pe_text(pes[0]), step_by_step=_pe_text(abstract)))
 
     kernels = r["kernels"][:steps_done]
     muxes = _mux_count(abstract) if not cut else MUX_CAP + 1
